@@ -18,12 +18,18 @@ SPECS = [
          result=["frame"],
          note="cut: the two statements that build the pseudo APDU handed to `self.ccid_xfr_block`; the logging "
               "statement in front (it evaluates `self.CMD[cmd_code]`) is not translated"),
+    Spec(GROUP, "acr122_ccid_accept", F, "Chipset.ccid_xfr_block", [("frame", BYTES)], stmts=(3, 7),
+         note="cut: the statements behind `frame = self.transport.read(..)`; parameter `frame` is that value "
+              "(a byte string; `None` is not modelled)"),
+    Spec(GROUP, "acr122_cmd_accept", F, "Chipset.command", [("frame", BYTES), ("cmd_code", INT)], stmts=(4, 8),
+         note="cut: the statements behind `frame = self.ccid_xfr_block(frame, timeout)`; parameter `frame` is that value"),
 ]
 P = "NfcVerif.FnBridge.Acr122."
 BRIDGE = {
     "module": "NfcVerif.Props.FnBridgeAcr122",
     "theorems": [P + t for t in (
-        "ccid_build_bridge", "cmd_build_bridge", "cmd_build_value", "gen_build_valid")],
+        "ccid_build_bridge", "cmd_build_bridge", "cmd_build_value", "gen_build_valid",
+        "ccid_accept_bridge", "cmd_accept_bridge", "accept_bridge", "gen_accept_sound", "gen_accept_documented")],
     "properties": ["C14", "C13"],
 }
 
@@ -35,6 +41,20 @@ def inputs(rng, sp):
             out.append(([rng.randrange(256), bytes(rng.randrange(256) for _ in range(n))], []))
         for c in (-1, 0, 255, 256):
             out.append(([c, b"\x01\x02"], []))
+    if sp.lean == "acr122_ccid_accept":
+        for _ in range(120):
+            body = bytes(rng.randrange(256) for _ in range(rng.randrange(0, 12)))
+            n = len(body) if rng.random() < 0.8 else rng.randrange(0, 2 ** 32)
+            f = bytes([0x80 if rng.random() < 0.9 else rng.randrange(256)]) + n.to_bytes(4, "little") + \
+                bytes(rng.randrange(256) for _ in range(5)) + body
+            out.append(([f[:rng.randrange(0, len(f) + 1)] if rng.random() < 0.1 else f], []))
+    if sp.lean == "acr122_cmd_accept":
+        for _ in range(120):
+            cmd = rng.randrange(0, 255)
+            f = bytes([0xD5 if rng.random() < 0.9 else rng.randrange(256), cmd + 1 if rng.random() < 0.9 else rng.randrange(256)]) + \
+                bytes(rng.randrange(256) for _ in range(rng.randrange(0, 6))) + \
+                bytes([0x90 if rng.random() < 0.9 else 0x63, 0 if rng.random() < 0.9 else rng.randrange(256)])
+            out.append(([f[:rng.randrange(0, len(f) + 1)] if rng.random() < 0.15 else f, cmd], []))
     return out
 
 
@@ -49,5 +69,14 @@ MUTATIONS = [
     ("acr122_cmd_build", "Lc without the two header octets", "0x00, len(frame)])", "0x00, len(cmd_data)])"),
     ("acr122_cmd_build", "header appended instead of prepended",
      "bytearray([0xFF, 0x00, 0x00, 0x00, len(frame)]) + frame", "frame + bytearray([0xFF, 0x00, 0x00, 0x00, len(frame)])"),
+    ("acr122_ccid_accept", "minimum length", "len(frame) < 10", "len(frame) < 9"),
+    ("acr122_ccid_accept", "message type", "frame[0] != 0x80", "frame[0] != 0x81"),
+    ("acr122_ccid_accept", "length field position", "memoryview(frame)[1:5]", "memoryview(frame)[2:6]"),
+    ("acr122_ccid_accept", "dwLength unpacked as 16 bit", 'struct.unpack("<I", memoryview(frame)[1:5])', 'struct.unpack("<H", memoryview(frame)[1:3])'),
+    ("acr122_ccid_accept", "header size in the length check", "10 + struct.unpack", "9 + struct.unpack"),
+    ("acr122_ccid_accept", "payload offset", "return frame[10:]", "return frame[9:]"),
+    ("acr122_cmd_accept", "response code check dropped", "frame[0] == 0xD5 and frame[1] == cmd_code + 1", "frame[0] == 0xD5"),
+    ("acr122_cmd_accept", "status word", "frame[-2] == 0x90 and frame[-1] == 0x00", "frame[-2] == 0x90 or frame[-1] == 0x00"),
+    ("acr122_cmd_accept", "payload bounds", "return frame[2:-2]", "return frame[2:-1]"),
     ("acr122_cmd_build", "NEUTRAL hex literal spelling", "0x00, 0x00, 0x00, len(frame)", "0, 0, 0, len(frame)"),
 ]
